@@ -49,6 +49,8 @@ def prerequisites(kind):
         # a bystander was tagged to the cid BEFORE the upload (documented use): a reference list without a data object
         "tag_shared_noobj": [{"op": "tag", "pid": O1, "cid": {"of": 0}}],
         "store_joins_noobj": [{"op": "tag", "pid": O1, "cid": {"of": 0}}],
+        # (not in TARGETS: used by C09 only) an object stored without a pid that the validation step then rejects and removes
+        "dii_unref_wrong": [{"op": "store", "pid": None, "c": 0}],
     }
     return pre[kind]
 
@@ -70,6 +72,7 @@ def target_op(kind, variant=0):
         "delete_refs_without_object": {"op": "delete", "pid": T},
         "tag_shared_noobj": {"op": "tag", "pid": T, "cid": {"of": 0}},
         "store_joins_noobj": {"op": "store", "pid": T, "c": 0},
+        "dii_unref_wrong": {"op": "dii", "c": 0},
         "smeta_new": {"op": "smeta", "pid": T, "fmt": FMT, "d": 1},
         "smeta_overwrite": {"op": "smeta", "pid": T, "fmt": FMT, "d": 1},
         "dmeta_one": {"op": "dmeta", "pid": T, "fmt": FMT},
@@ -160,6 +163,13 @@ class Scenario:
             return call(store.tag_object, op["pid"], self.cfg.digest(self.contents[op["cid"]["of"]]))
         if k == "delete":
             return call(store.delete_object, op["pid"])
+        if k == "dii":
+            import hashlib
+            data = self.contents[op["c"]]
+            om = common.hs().ObjectMetadata("HashStoreNoPid", self.cfg.digest(data), len(data),
+                                            {a: hashlib.new(a, data).hexdigest() for a in common.DEFAULT_DIGESTS})
+            wrong = hashlib.sha256(data + b"?").hexdigest()
+            return call(store.delete_if_invalid_object, om, wrong, "sha256", len(data) or None)
         if k == "smeta":
             if op.get("fmt") is None:
                 return call(store.store_metadata, op["pid"], self.dpaths[op["d"]])
